@@ -81,7 +81,7 @@ func (r Root) extend(step string) Root {
 
 type RootSet map[Root]struct{}
 
-func (s RootSet) add(r Root)     { s[r] = struct{}{} }
+func (s RootSet) add(r Root) { s[r] = struct{}{} }
 func (s RootSet) addAll(o RootSet) {
 	for r := range o {
 		s[r] = struct{}{}
@@ -506,19 +506,19 @@ func (e *Effects) freshContents(loc Root, user *ssa.Function) RootSet {
 // externalAlias lists out-of-repo callees whose pointer-like result aliases
 // an argument (index) instead of being freshly allocated.
 var externalAlias = map[string]int{
-	"(*bytes.Buffer).Bytes":  0,
-	"(*bytes.Buffer).Next":   0,
-	"bytes.TrimSpace":        0,
-	"bytes.Trim":             0,
-	"bytes.TrimLeft":         0,
-	"bytes.TrimRight":        0,
-	"bytes.TrimPrefix":       0,
-	"bytes.TrimSuffix":       0,
-	"(*math/big.Int).Bits":   0,
-	"(*container/list.List).Front": 0,
-	"(*container/list.List).Back":  0,
-	"(*container/list.Element).Next": 0,
-	"(*container/list.Element).Prev": 0,
+	"(*bytes.Buffer).Bytes":            0,
+	"(*bytes.Buffer).Next":             0,
+	"bytes.TrimSpace":                  0,
+	"bytes.Trim":                       0,
+	"bytes.TrimLeft":                   0,
+	"bytes.TrimRight":                  0,
+	"bytes.TrimPrefix":                 0,
+	"bytes.TrimSuffix":                 0,
+	"(*math/big.Int).Bits":             0,
+	"(*container/list.List).Front":     0,
+	"(*container/list.List).Back":      0,
+	"(*container/list.Element).Next":   0,
+	"(*container/list.Element).Prev":   0,
 	"(*container/list.List).PushBack":  0,
 	"(*container/list.List).PushFront": 0,
 	"(*container/list.List).Init":      0,
@@ -526,10 +526,10 @@ var externalAlias = map[string]int{
 
 // bytes.NewBuffer(b)/NewReader(b)/bstream.NewBStreamReader(b): the result keeps a reference to b.
 var externalKeeps = map[string]int{
-	"bytes.NewBuffer":                                  0,
-	"bytes.NewReader":                                  0,
-	"github.com/kkdai/bstream.NewBStreamReader":        0,
-	"bufio.NewReader":                                  0,
+	"bytes.NewBuffer": 0,
+	"bytes.NewReader": 0,
+	"github.com/kkdai/bstream.NewBStreamReader": 0,
+	"bufio.NewReader": 0,
 }
 
 func (e *Effects) callResult(c *ssa.Call, idx int) RootSet {
